@@ -138,8 +138,8 @@ theorem isBytes_joinSlash {Q : List Str} (h : ∀ c ∈ Q, IsBytes c) : IsBytes 
 
 /-- the reader's name of the part written for entry `name` under the stack `P` -/
 theorem fileName_mkPart {P : List Str} {name : Str} (hP : ∀ c ∈ P, NameOK c) (hn : NameOK name)
-    (form : Bool) (mode : Nat) (mt : Option (Int × Nat)) (ct : CType) (body : Str) :
-    fileName (mkPart form ([] :: P) name mode mt ct body) = dp (P ++ [name]) := by
+    (form : Bool) (mode : Nat) (mt : Option (Int × Nat)) (ct : CType) (body a : Str) :
+    fileName (mkPart form ([] :: P) name mode mt ct body a) = dp (P ++ [name]) := by
   have hall : ∀ c ∈ P ++ [name], NameOK c := by
     intro c hc; simp at hc; rcases hc with e | e
     · exact hP c e
